@@ -158,13 +158,13 @@ Section Phase.
       assert (Hnorm : normalize_chunk (firstn m pend) = drop_cr (firstn m pend))
         by (apply normalize_chunk_noesc, mem_byte_firstn_false, Hesc).
       rewrite Hnorm.
-      assert (Hq : concat (match drop_cr (firstn m pend) with [] => q | _ :: _ => q ++ [drop_cr (firstn m pend)] end)
-                   = concat q ++ drop_cr (firstn m pend)).
-      { destruct (drop_cr (firstn m pend)) eqn:E; [now rewrite app_nil_r | apply concat_snoc]. }
+      assert (Hsplit : drop_cr pend = drop_cr (firstn m pend) ++ drop_cr (skipn m pend)).
+      { rewrite <- drop_cr_app. now rewrite firstn_skipn. }
       unfold in_phase. cbn [s_pc s_dev s_wlog s_notes s_reader s_acc s_queue s_pending].
       repeat split; try reflexivity; try assumption.
-      + rewrite Hq. rewrite <- Hst. rewrite <- (firstn_skipn m pend) at 3.
-        rewrite drop_cr_app. now rewrite <- !app_assoc.
+      + rewrite <- Hst, Hsplit.
+        destruct (drop_cr (firstn m pend)) as [|b1 ch] eqn:E; [reflexivity|].
+        rewrite concat_snoc. now rewrite <- !app_assoc.
       + apply mem_byte_skipn_false, Hesc.
   Qed.
 
